@@ -17,6 +17,8 @@ NONTRIVIAL_FLOOR = 400
 
 SIGS = ["*:64:0:*:mss*4,*:mss,nop,ws:df,id+:0", "4:128:0:1460:8192,0:mss,nop,nop,sok:df,id+:+", "*:64:0:*:*,*:mss,sok,ts,nop,ws::*", "6:64:0:*:%8192,*:mss:flow:0",
         "*:255:4:*:1024,*:?77,sack,eol+2:seq-,ack+,pushf+,ecn:0", "bogus", "*:64:0:*:mss*10,*:mss,sok,ts,nop,ws:df,id+,ts1-:0"]
+# the very texts the loaded database holds: an impersonation by raw_signature must not reach the database's own objects
+SIGS += [l.split("=", 1)[1].strip() for l in DB_A.splitlines() if l.startswith("sig") and l.count(":") == 7]
 LABELS = ["s:unix:Linux:3.x", "g:unix:Linux:2.2.x-3.x", "nope"]
 
 
